@@ -114,7 +114,7 @@ def run(ctx):
             kw = {"split": rng.choice([65536, 4096, 1000, 777]), "stored": rng.random() < 0.5} if cont == "lz4" else {}
             path = gen.write(os.path.join(d, name + "." + cont), gen.contain(data, cont, **kw))
         use = sorted({max(64, min(0xFFFFFF, x)) for x in (B, B - 1, B + 1, rng.choice(bszs))})
-        opts = rng.choice([[], [], ["-n", "-u"], ["-p", "-l", "-w"]])
+        opts = rng.choice([[], [], ["-n", "-u"], ["-p", "-l", "-w"], ["-u", "-d", "%Y%m%dT%H%M%S%.9f"], ["-u", "-d", "%Y%m%dT%H%M%S%.9f"]])
         if bz is not None and rng.random() < 0.45:
             # the same options at every block size include a datetime window: the search for the first message (binary on plain
             # files, linear on streamed ones) walks the blocks differently at every block size
